@@ -559,6 +559,13 @@ func (r *Run) oracleC06() {
 				unregTried = true
 			}
 		}
+		if c := r.cancelStep(); c != 0 && h.regReturn >= c {
+			// RegisterCallback overlapped the cancellation of the Config context
+			// (or came after it): the callback goroutine may already have drained
+			// its queue and gone when the registration arrives - accepted or
+			// not, nothing is owed to it
+			continue
+		}
 		if keep && !unregTried && r.sc.GlobalCB != "block" {
 			// a handle registered with the serial of a version must end up with
 			// the final version whichever way round registration and events were
